@@ -12,13 +12,14 @@ Definition wm2 : str := lit "c18wit.m2".
 Definition fd (n : string) (i : bool) (d : fdefault) : fdesc := {| f_name := lit n; f_init := i; f_default := d |}.
 
 Definition W_wit : world :=
-  [ {| c_ref := (wm1, [lit "Color"]); c_kind := KEnum [lit "RED"] |};
+  [ {| c_ref := (wm1, [lit "Color"]); c_kind := KEnum [lit "RED"] None |};
+    {| c_ref := (wm1, [lit "Perm"]); c_kind := KEnum [lit "R"; lit "W"] (Some [4096; 8192]) |};
     {| c_ref := (wm1, [lit "X"]); c_kind := KData false [fd "a" true (DValue (VInt 0))] |};
     {| c_ref := (wm1, [lit "Outer"]);
        c_kind := KData false [fd "a" true (DValue VNone); fd "inner" true (DValue VNone); fd "e" true (DValue VNone);
                               fd "fx" false (DValue (VStr (lit "fixed"))); fd "any" true (DValue VNone);
                               fd "x" true (DValue VNone)] |};
-    {| c_ref := (wm1, [lit "Outer"; lit "Kind"]); c_kind := KEnum [lit "A"] |};
+    {| c_ref := (wm1, [lit "Outer"; lit "Kind"]); c_kind := KEnum [lit "A"] None |};
     {| c_ref := (wm1, [lit "Outer"; lit "Inner"]); c_kind := KData false [fd "v" true (DValue (VFloat 0))] |};
     {| c_ref := (wm1, [lit "Fz"]); c_kind := KData true [fd "t" true (DFactory (VTuple []))] |};
     {| c_ref := (wm2, [lit "X"]);
@@ -57,8 +58,13 @@ Definition wit_ok : value :=
 (* Outer(any=datetime.date(2020, 1, 2)) *)
 Definition wit_std : value := outer VNone VNone VNone fixed (VStd SDate [2020; 1; 2]) VNone.
 
+(* Outer(any=[Perm.R | Perm.W, Perm(0), Perm.W]) with class Perm(IntFlag): R = 4096; W = 8192 *)
+Definition wit_flag : value :=
+  outer VNone VNone VNone fixed
+    (VList [VFlag (wm1, [lit "Perm"]) 12288; VFlag (wm1, [lit "Perm"]) 0; VEnum (wm1, [lit "Perm"]) (lit "W")]) VNone.
+
 Definition witnesses : list value :=
-  [wit_tuple; wit_enum; wit_collision; wit_qname; wit_init; wit_std; wit_ok].
+  [wit_tuple; wit_enum; wit_collision; wit_qname; wit_init; wit_std; wit_flag; wit_ok].
 
 (* the other clauses of the guard hold: each witness isolates one clause *)
 Definition only_imports W v := negb (g_imports W v) && g_init W v.
@@ -81,6 +87,10 @@ Proof. vm_compute. auto 10. Qed.
 
 (* stdlib datetime values without `import datetime`: repaired in /repo db048b1; kept as a regression witness *)
 Lemma std_fixed : wf W_wit wit_std = true /\ guard W_wit wit_std = true /\ roundtrip W_wit wit_std = true.
+Proof. vm_compute. auto 10. Qed.
+
+(* unnamed flag combinations written P.R|W / P.None: repaired in /repo e7d55af; regression witness *)
+Lemma flag_fixed : wf W_wit wit_flag = true /\ guard W_wit wit_flag = true /\ roundtrip W_wit wit_flag = true.
 Proof. vm_compute. auto 10. Qed.
 
 Lemma guard_nonvacuous : wf W_wit wit_ok = true /\ guard W_wit wit_ok = true /\ roundtrip W_wit wit_ok = true.
